@@ -342,7 +342,58 @@ def res_cli(run, case, rng, work):
 
 
 k_res = C01.with_workdir(res_cli)
-KINDS = {"merge": k_merge, "res": k_res}
+def k_exe_layout(run, case):
+    """
+    The real evo_res executable (fresh interpreter) with the options written before, after or
+    between the result files: the table either has a row for every file named on the command line,
+    or the command is refused (non-zero exit status) and writes no table - never a table for a
+    part of the files.
+    """
+    import shutil
+    from evo.tools import file_interface
+    from vmon import cli
+    rng = run.rng(case)
+    work = os.path.join(os.environ.get("VMON_WORK", "."), "c13x_%d" % case["rs"][-1])
+    os.makedirs(work, exist_ok=True)
+    try:
+        k = int(rng.integers(2, 5))
+        names = []
+        for i in range(k):
+            r = make_result(rng, STAT_KEYS, ["error_array"], {"error_array": 12}, int(rng.integers(2**31)), "est_%d.txt" % i)
+            name = "res_%d.zip" % i
+            file_interface.save_res_file(os.path.join(work, name), r)
+            names.append(name)
+        opts = [["--use_filenames"], ["--use_filenames", "--ignore_title"], ["--use_filenames", "-v"],
+                ["--use_filenames", "--use_rel_time"]][rng.integers(4)]
+        layout = case.get("layout") or ["before", "after", "between", "between"][rng.integers(4)]
+        out_opts = ["--save_table", "table.csv", "--no_warnings"]
+        if layout == "before":
+            argv = opts + names + out_opts
+        elif layout == "after":
+            argv = names + opts + out_opts
+        else:
+            cut = int(rng.integers(1, k))
+            argv = names[:cut] + opts + names[cut:] + out_opts
+        pr = cli.run_subprocess("res", argv, work, os.environ["HOME"])
+        table = os.path.join(work, "table.csv")
+        run.seen(case, core.digest(layout, opts, k), cls=["evo_res executable, options %s the files" % layout],
+                 sample={"argv": argv, "exit": pr.returncode, "table_written": os.path.exists(table)})
+        if pr.returncode != 0:
+            run.check(not os.path.exists(table), "a refused evo_res command writes no table", case,
+                      "evo_res %s exited with %d but wrote a table" % (argv, pr.returncode), key="exe:table-after-refusal")
+            run.hit("evo_res executable: layout refused")
+            run.check(layout == "between", "options before / after the files are accepted", case,
+                      "evo_res %s failed: %s" % (argv, pr.stderr[-300:]), key="exe:layout-refused")
+            return
+        text = open(table).read() if os.path.exists(table) else ""
+        missing = [nm for nm in names if nm not in text]
+        run.check(os.path.exists(table) and not missing, "evo_res executable: a row for every file on the command line", case,
+                  "evo_res %s succeeded but its table has no row for %s" % (argv, missing), key="exe:rows-missing")
+    finally:
+        shutil.rmtree(work, ignore_errors=True)
+
+
+KINDS = {"exe_layout": k_exe_layout, "merge": k_merge, "res": k_res}
 
 
 def main(run):
@@ -354,7 +405,9 @@ def main(run):
         k_merge(run, run.case("merge", i))
     for i in run.mine({"quick": 160, "thorough": 2500}[run.tier]):
         k_res(run, run.case("res", i))
-    run.need("merged statistic == arithmetic mean", "equal lengths: element-wise mean",
+    for i in run.mine({"quick": 12, "thorough": 120}[run.tier]):
+        k_exe_layout(run, run.case("exe_layout", i, layout=["between", "before", "between", "after"][i % 4]))
+    run.need("evo_res executable: a row for every file on the command line", "merged statistic == arithmetic mean", "equal lengths: element-wise mean",
              "unequal lengths: concatenation in input order", "results with different keys refused",
              "single result returned unchanged", "info of the first result kept",
              "merge leaves every input result unchanged",
